@@ -1,0 +1,37 @@
+//! Verification hooks, compiled only with `--cfg folo_verif` (deterministic-simulation harnesses).
+//!
+//! Makes the existing Linux platform seams (`Filesystem`, `Bindings`) reachable from outside the
+//! crate, so that the real parsing, cross-referencing and mask-building code can be executed over a
+//! simulated `/proc`, `/sys` and scheduler. Nothing here is used unless a harness calls it.
+#![allow(missing_docs, reason = "verification-only hook module")]
+#![allow(clippy::missing_errors_doc, reason = "verification-only hook module")]
+
+use std::fmt::Debug;
+use std::io;
+
+/// Mirror of the crate-private Linux `Filesystem` abstraction.
+pub trait SimFilesystem: Debug + Send + Sync + 'static {
+    fn get_cpuinfo_contents(&self) -> String;
+    fn get_possible_cpus_contents(&self) -> Option<String>;
+    fn get_online_cpus_contents(&self) -> Option<String>;
+    fn get_numa_node_possible_contents(&self) -> Option<String>;
+    fn get_numa_node_cpulist_contents(&self, node_index: u32) -> Option<String>;
+    fn get_cpu_online_contents(&self, cpu_index: u32) -> Option<String>;
+    fn get_proc_self_status_contents(&self) -> String;
+    fn get_proc_self_cgroup(&self) -> Option<String>;
+    fn get_v1_cgroup_cpu_quota(&self, cgroup_name: &str) -> Option<String>;
+    fn get_v1_cgroup_cpu_period(&self, cgroup_name: &str) -> Option<String>;
+    fn get_v2_cgroup_cpu_quota_and_period(&self, cgroup_name: &str) -> Option<String>;
+}
+
+/// Mirror of the crate-private Linux `Bindings` abstraction, with affinity masks as the raw bytes
+/// that would be handed to / filled by the operating system.
+pub trait SimBindings: Debug + Send + Sync + 'static {
+    /// `sched_setaffinity(0, mask.len(), mask)` for the calling thread.
+    fn sched_setaffinity_current(&self, mask: &[u8]) -> Result<(), io::Error>;
+
+    /// `sched_getaffinity(0, mask.len(), mask)` for the calling thread; `mask` arrives zeroed.
+    fn sched_getaffinity_current(&self, mask: &mut [u8]) -> Result<(), io::Error>;
+
+    fn sched_getcpu(&self) -> i32;
+}
